@@ -56,6 +56,22 @@ def gen(rnd):
         default2 = rnd.random() < 0.5
         D["nested"] = {"branch": i, "nb": nb2, "default": default2, "nonblocking": rnd.random() < 0.5, "priority": rnd.random() < 0.5,
                        "br": [sorted(rnd.sample(free, rnd.randint(0, min(2, len(free))))) for _ in range(nb2 + (1 if default2 else 0))]}
+    if rnd.random() < 0.15:
+        # forced class: a conditionally called host whose branch calls nothing itself and nests a condition(); a nested branch calls a method
+        # that contains a condition() of its own - the conditional-call status has to reach that innermost block through two levels of nesting
+        free = [j for j in range(D["nm"]) if j not in D["outer_calls"]]
+        if free:
+            D["in_method"] = True
+            D["cond_call"] = rnd.choice(["if", "enable", "ifelif"])
+            D["chain"] = rnd.random() < 0.5
+            i_ = rnd.randrange(D["nb"])
+            D["br"][i_] = []
+            j_ = rnd.choice(free)
+            nb2 = rnd.randint(1, 2)
+            D["nested"] = {"branch": i_, "nb": nb2, "default": False, "nonblocking": rnd.random() < 0.5, "priority": False,
+                           "br": [[j_]] + [[j_] if rnd.random() < 0.5 else [] for _ in range(nb2 - 1)]}
+            D["callee_cond"] = j_
+            D["forced_deep_callee_condition"] = True
     return D
 
 
@@ -236,6 +252,8 @@ def run_one(rec, rnd, idx, max_cycles):
         nb = D["nb"]
         tag = (f"nb{nb}d{int(D['default'])}nbk{int(D['nonblocking'])}p{int(D['priority'])}m{int(D['in_method'])}{D['cond_call']}ch{int(D['chain'])}s{int(D['share'])}"
                f"v{int(any(V))}n{(str(N['nb']) + str(int(N['default'])) + str(int(N['nonblocking'])) + str(int(N['priority']))) if N else '-'}")
+        if D.get("forced_deep_callee_condition"):
+            rec.count("designs_with_condition_in_a_method_called_from_a_nested_branch")
         if N:
             rec.count("designs_with_nested_condition")
         if any(V):
